@@ -62,12 +62,16 @@ where
             )
             .await?; // cancel safe
 
+            // Only the first transfer of a delivery carries the delivery-tag (the session
+            // assigns a new delivery-id to every transfer that has one), the message-format
+            // and the settled flag. This also holds when there is no transfer in the middle.
+            transfer.delivery_tag = None;
+            transfer.message_format = None;
+            transfer.settled = None;
+
             // Send the transfers in the middle
             while payload.len() > self.max_message_size as usize {
                 let partial = payload.split_to(self.max_message_size as usize);
-                transfer.delivery_tag = None;
-                transfer.message_format = None;
-                transfer.settled = None;
                 send_transfer(
                     writer,
                     input_handle.clone(),
